@@ -147,13 +147,13 @@ pub fn check(sc: &Sc, text: &'static str, forms: &[Form]) {
     // Universal (also for len == 0, ungrammatical first > last, unparseable numbers):
     // no panic (Kani's checks), and every returned range is non-empty and inside the entity.
     if let ResolvedRanges::Satisfiable(ref v) = got {
-        assert!(!v.is_empty(), "Satisfiable with no ranges");
-        assert!(v.len() <= forms.len(), "more ranges than specs");
+        assert!(!v.is_empty(), "C03: Satisfiable with no ranges");
+        assert!(v.len() <= forms.len(), "C03: more ranges than specs");
         let mut i = 0;
         while i < MAXR {
             if i < v.len() {
-                assert!(v[i].start < v[i].end, "empty or inverted range returned");
-                assert!(v[i].end <= sc.len, "range beyond the entity");
+                assert!(v[i].start < v[i].end, "C03/C02: empty or inverted range returned");
+                assert!(v[i].end <= sc.len, "C03/C02: range beyond the entity");
             }
             i += 1;
         }
@@ -194,18 +194,18 @@ pub fn check(sc: &Sc, text: &'static str, forms: &[Form]) {
         i += 1;
     }
     match got {
-        ResolvedRanges::None => assert!(false, "grammatical bytes= range set was ignored"),
+        ResolvedRanges::None => assert!(false, "C03: grammatical bytes= range set was ignored"),
         ResolvedRanges::NotSatisfiable => {
-            assert!(n_exp == 0, "satisfiable range set answered as unsatisfiable")
+            assert!(n_exp == 0, "C03: satisfiable range set answered as unsatisfiable")
         }
         ResolvedRanges::Satisfiable(ref v) => {
-            assert!(v.len() == n_exp, "wrong number of satisfiable ranges");
+            assert!(v.len() == n_exp, "C03: wrong number of satisfiable ranges");
             let mut i = 0;
             while i < MAXR {
                 if i < n_exp {
                     assert!(
                         v[i].start == exp[i].0 && v[i].end == exp[i].1,
-                        "range differs from RFC 7233 resolution"
+                        "C03: range differs from RFC 7233 resolution"
                     );
                 }
                 i += 1;
@@ -229,13 +229,13 @@ pub fn check_lex(len: u64, text: &'static [u8], ignored: bool, specs: &[Spec]) {
         let mut i = 0;
         while i < MAXR {
             if i < v.len() {
-                assert!(v[i].start < v[i].end && v[i].end <= len);
+                assert!(v[i].start < v[i].end && v[i].end <= len, "C03/C02: empty, inverted or out-of-bounds range returned");
             }
             i += 1;
         }
     }
     if ignored {
-        assert!(got == ResolvedRanges::None, "out-of-grammar Range header was not ignored");
+        assert!(got == ResolvedRanges::None, "C03: out-of-grammar Range header was not ignored");
         return;
     }
     if len == 0 {
@@ -263,14 +263,14 @@ pub fn check_lex(len: u64, text: &'static [u8], ignored: bool, specs: &[Spec]) {
         i += 1;
     }
     match got {
-        ResolvedRanges::None => assert!(false, "grammatical bytes= range set was ignored"),
-        ResolvedRanges::NotSatisfiable => assert!(n_exp == 0, "satisfiable set answered 416"),
+        ResolvedRanges::None => assert!(false, "C03: grammatical bytes= range set was ignored"),
+        ResolvedRanges::NotSatisfiable => assert!(n_exp == 0, "C03: satisfiable set answered 416"),
         ResolvedRanges::Satisfiable(ref v) => {
-            assert!(v.len() == n_exp, "wrong number of satisfiable ranges");
+            assert!(v.len() == n_exp, "C03: wrong number of satisfiable ranges");
             let mut i = 0;
             while i < MAXR {
                 if i < n_exp {
-                    assert!(v[i].start == exp[i].0 && v[i].end == exp[i].1, "range differs from RFC");
+                    assert!(v[i].start == exp[i].0 && v[i].end == exp[i].1, "C03: range differs from RFC");
                 }
                 i += 1;
             }
@@ -296,7 +296,7 @@ pub fn naive_memchr(x: u8, text: &[u8]) -> Option<usize> {
 #[kani::unwind(4)]
 fn range_absent() {
     let len: u64 = kani::any();
-    assert!(parse(None, len) == ResolvedRanges::None);
+    assert!(parse(None, len) == ResolvedRanges::None, "C03: absent Range header not resolved to None");
 }
 
 #[path = "range_gen.rs"]
